@@ -22,6 +22,7 @@ import (
 	"syscall"
 	"time"
 
+	nrinet "github.com/containerd/nri/pkg/net"
 	"github.com/containerd/nri/pkg/net/multiplex"
 	"github.com/containerd/nri/pkg/vhook"
 
@@ -611,6 +612,23 @@ func (r *run) exec(sc Scenario, w *rec.Writer) error {
 		if ok, _ := timed(watchdog, cw.Wait); !ok {
 			r.ev("accept", "n", 3, "got", false, "class", "", "hung", true)
 		}
+	}
+	// the same for fresh wrapped listeners, all closers released at the same instant, many times over: a guard
+	// that is not atomic needs two closers inside a window of a few instructions
+	for i := 0; i < 200; i++ {
+		pa, pb := net.Pipe()
+		l := nrinet.NewConnListener(pa)
+		start := make(chan struct{})
+		var cw sync.WaitGroup
+		for k := 0; k < 8; k++ {
+			cw.Add(1)
+			go func() { defer cw.Done(); <-start; l.Close() }()
+		}
+		close(start)
+		if ok, _ := timed(watchdog, cw.Wait); !ok {
+			r.ev("accept", "n", 3, "got", false, "class", "", "hung", true)
+		}
+		pb.Close()
 	}
 	select {
 	case cls := <-acc2:
